@@ -12,6 +12,11 @@ for id in $ids; do
   prop=$(echo "$id" | cut -c1-3)   # seeded/C06b is a second change for property C06
   out=$(bin/govc check -prop "$prop" -tier quick -out "$(pwd)/out/seeded" 2>&1)
   code=$?
+  if [ "$prop" = C18 ]; then   # the C18 check also runs the bounded stand-in for Normalize (see ./check)
+    bsum=$(tools/bounded_c18.sh quick); bcode=$?
+    if [ $bcode -ne 0 ]; then out="$out
+VIOLATION property=C18 replay=$(pwd)/out/C18/bounded/log.txt (bounded stand-in: $(grep -h BOUNDED-VIOLATION out/C18/bounded/log.txt | head -1 | sed 's/.*BOUNDED-VIOLATION //' | cut -c1-120))"; code=1; fi
+  fi
   git -C /repo apply -R "$(pwd)/$p"
   n=$(echo "$out" | grep -c "^VIOLATION property=$prop")
   if [ $code -eq 1 ] && [ $n -gt 0 ]; then
